@@ -963,6 +963,11 @@ func (self *Metadata) uncheckedReset() error {
 // started the job locally or queued it remotely.
 func (self *Metadata) restartQueuedLocal() error {
 	if self.exists(QueuedLocally) {
+		if state, _ := self.getState(); state == Complete {
+			// The job was started, and has finished, but mrp was
+			// terminated before it removed the marker.  The work is done.
+			return self.remove(QueuedLocally)
+		}
 		if err := self.uncheckedReset(); err == nil {
 			util.PrintInfo("runtime", "(reset-running)   %s", self.fqname)
 			return nil
